@@ -673,6 +673,77 @@ def plugin_history_oracle(ctx: Ctx, rng, only: Optional[Dict[str, List[str]]] = 
     return hit
 
 
+def prefix_groups() -> Dict[str, Dict[str, List[str]]]:
+    """{package: {short name: [prefixes]}} from the module files of the three plug-in packages: every way of cutting a
+    module name at an underscore into prefix_short where `short` is not a module itself and at least two prefixes share it"""
+    out: Dict[str, Dict[str, List[str]]] = {}
+    for pkg in ("midgard.parsers", "midgard.writers", "midgard.data.fieldtypes"):
+        d = Path(REPO) / pkg.replace(".", "/")
+        stems = sorted(p.stem for p in d.glob("*.py") if not p.stem.startswith("_"))
+        g: Dict[str, List[str]] = {}
+        for st in stems:
+            parts = st.split("_")
+            for i in range(1, len(parts)):
+                pre, short = "_".join(parts[:i]), "_".join(parts[i:])
+                if short and pre and short not in stems:
+                    g.setdefault(short, []).append(pre)
+        out[pkg] = {k: v for k, v in g.items() if len(v) >= 2}
+    return out
+
+
+def plugin_prefix_oracle(ctx: Ctx, rng, tmp: Path, only: Optional[Dict[str, Any]] = None):
+    """a short plug-in name resolved through a prefix (`plugins.load/get/call/names(..., prefix=)`, as the rinex dispatchers
+    do) ends in the module prefix_short - whatever prefix the same short name was resolved with before; `exists(short)` stays
+    False; the listing of the package is what it was.  Per job (a fresh interpreter): one short name, two prefixes, the
+    routes in sequence p1, p2, p1 (both orders over the jobs)."""
+    garbage = tmp / "garbage_prefix.txt"
+    garbage.write_text("Temporary test file\n")
+    jobs = []
+    if only is not None:
+        jobs.append(dict(only, file=str(garbage)))
+    else:
+        groups = prefix_groups()
+        for j in range(ctx.budget(6, 24)):
+            pkgs = [p for p in groups if groups[p]]
+            pkg = "midgard.parsers" if j % 3 != 2 or len(pkgs) == 1 else rng.choice(pkgs)
+            short = rng.choice(sorted(groups[pkg]))
+            p1, p2 = rng.sample(groups[pkg][short], 2)
+            routes = ["l", "g", "n"] + (["c"] if pkg == "midgard.parsers" else [])
+            steps = [[rng.choice(routes) if j else "g", short, p1], ["e", short, ""], [rng.choice(routes) if j else "c" if "c" in routes else "g", short, p2],
+                     [rng.choice(routes), short, p1], ["e", short, ""]]
+            jobs.append({"package": pkg, "steps": steps, "file": str(garbage)})
+    with cf.ThreadPoolExecutor(max_workers=8) as exr:
+        res = list(exr.map(lambda q: worker("prefixhist", q), jobs))
+    hit = False
+    for job, r in zip(jobs, res):
+        case = {"phase": "plugin-prefix-history", "package": job["package"], "steps": job["steps"]}
+        ctx.case(case, nontrivial=True)
+        ctx.count("plugin-prefix-history")
+        pk = job["package"].split(".")[-1]
+        for (route, short, prefix), ans in zip(job["steps"], r["answers"]):
+            ctx.count(f"plugin-prefix-route:{route}")
+            full = f"{prefix}_{short}"
+            if route == "e":
+                want = False
+            elif route == "c":
+                want = r["by_full_name"].get(full)
+            else:
+                want = full
+            if ans != want:
+                ctx.violate(f"plugin-prefix-{'exists' if route == 'e' else 'resolution'}:{pk}.{short}",
+                            f"plugins.{ {'l': 'load', 'g': 'get', 'n': 'names', 'c': 'call', 'e': 'exists'}[route] }({job['package']!r}, {short!r}"
+                            f"{', prefix=' + repr(prefix) if route != 'e' else ''}) gives {ans!r} instead of {want!r} after the requests "
+                            f"{job['steps'][: job['steps'].index([route, short, prefix])]}", case)
+                hit = True
+        if r["before"] != r["after"]:
+            extra = sorted(set(r["after"]) - set(r["before"]))
+            gone = sorted(set(r["before"]) - set(r["after"]))
+            ctx.violate(f"plugin-listing-after-prefix-requests:{job['package']}",
+                        f"after the requests {job['steps']} the listing of {job['package']} changed (new {extra}, lost {gone})", case)
+            hit = True
+    return hit
+
+
 def static_id_for(dyn_id: str, kind: str, static_cells: Dict[str, str]) -> Optional[str]:
     """map a run-time cell to the id the translator gives it"""
     if dyn_id in static_cells:
@@ -1192,6 +1263,7 @@ def _explore(ctx, drv, rng, tmp, static_cells, effects, mech, tinfo, pool):
     # ---- plug-in oracle
     plugin_oracle(ctx, tmp)
     plugin_history_oracle(ctx, rng)
+    plugin_prefix_oracle(ctx, rng, tmp)
     mark("end")
     ctx.extra["wall_phases_s"] = {a[0]: round(b[1] - a[1], 1) for a, b in zip(marks, marks[1:])}
     ctx.traces = ex.parses
@@ -1218,6 +1290,17 @@ def replay(payload):
     if c.get("phase") == "plugin-history":
         ctx = Ctx("C16", "quick", 0)
         hit = plugin_history_oracle(ctx, ctx.rng, only=c["questions"])
+        for v in ctx.violations:
+            print(" ", v.key, "-", v.what[:300])
+        print("VIOLATION reproduced" if hit else "not reproduced")
+        return 1 if hit else 0
+    if c.get("phase") == "plugin-prefix-history":
+        ctx = Ctx("C16", "quick", 0)
+        tmp = Path(tempfile.mkdtemp(prefix="c16-"))
+        try:
+            hit = plugin_prefix_oracle(ctx, ctx.rng, tmp, only={"package": c["package"], "steps": c["steps"]})
+        finally:
+            shutil.rmtree(tmp, ignore_errors=True)
         for v in ctx.violations:
             print(" ", v.key, "-", v.what[:300])
         print("VIOLATION reproduced" if hit else "not reproduced")
